@@ -701,7 +701,7 @@ public:
 			return true;
 		}
 		_ref.set_instance(c);
-		return true;
+		return false;
 	}
 	bool resize(long len)
 	{
